@@ -1067,6 +1067,9 @@ func (fc *FnCtx) run() {
 	}
 	for _, fv := range fn.FreeVars {
 		v := fc.freshVal("fv_"+fv.Name(), fv.Type())
+		if v.GoT == nil {
+			v.GoT = fv.Type()
+		}
 		if v.T != nil && (kindOf(fv.Type()) == KPtr || kindOf(fv.Type()) == KRef) {
 			if _, isPtr := fv.Type().Underlying().(*types.Pointer); isPtr {
 				fc.S.Assert(smt.Gt(v.T, smt.IntLit(0)), "a captured variable's address is never nil")
